@@ -87,3 +87,30 @@ Example C03_ex_tx :
   let s' := tx_commit Z s (tx_run Z s (tx_begin Z [30; 31; 32]) ops) 1000 in
   map (f_read Z s') [5; 6; 7; 8] = [1; 3; 2; 800] /\ f_wal Z s' = [(7, 30)].
 Proof. vm_compute. split; reflexivity. Qed.
+
+(* ---- the writer's scheduling queue (write.go Schedule / Sync / nextCommand): page writes reach the file in schedule order, across batches and syncs ----
+   For every interleaving of Schedule / Sync calls with nextCommand calls of ANY buffer sizes: what the goroutine has
+   been handed so far, followed by what the queue still holds, is the sequence of writes and syncs in the order they
+   were scheduled. A sync is executed after all writes scheduled before it and before every write scheduled later. *)
+From VF Require Import WriterQueue WriterQueueProofs.
+Theorem C03_writer_queue_preserves_schedule : forall ops s,
+  Inv s -> buffers_ok ops ->
+  let '(s', out, inp) := wq_run s ops in
+  out ++ remaining s' = remaining s ++ inp /\ Inv s'.
+Proof. exact queue_preserves_schedule. Qed.
+Print Assumptions C03_writer_queue_preserves_schedule.
+
+Theorem C03_writer_executes_the_schedule : forall ops,
+  buffers_ok ops ->
+  let '(s', out, inp) := wq_run wq_init ops in
+  out ++ remaining s' = inp /\ (remaining s' = [] -> out = inp).
+Proof. exact executed_is_schedule. Qed.
+Print Assumptions C03_writer_executes_the_schedule.
+
+(* false for the variant that tests "sync due" against all queued writes and clamps to the buffer afterwards *)
+Theorem C03_late_clamp_refuted : exists ops,
+  buffers_ok ops /\
+  let '(s', out, inp) := wq_run_late wq_init ops in
+  remaining s' = [] /\ out <> inp /\ inp = [EW 1; EW 2; EW 3; ES] /\ out = [EW 1; EW 2; ES; EW 3].
+Proof. exact late_clamp_refuted. Qed.
+Print Assumptions C03_late_clamp_refuted.
